@@ -1,6 +1,7 @@
 package main
 
 import (
+	"net/url"
 	"path"
 	"strconv"
 	"fmt"
@@ -24,7 +25,7 @@ func installModels(e *Engine) {
 				case '/':
 					out += "~1"
 				default:
-					out += string(cs[i])
+					out += cs[i : i+1]
 				}
 			}
 			return StrC(out), true
@@ -61,8 +62,17 @@ func installModels(e *Engine) {
 	e.intercept["strings.Split"] = func(e *Engine, fr *Frame, c *Ctx, a []Value, cc *ssa.CallCommon) (Value, bool) {
 		s := a[0].(StrV)
 		sep, _ := a[1].(StrV).Concrete()
+		if cs, ok := s.Concrete(); ok && sep != "" {
+			parts := strings.Split(cs, sep)
+			el := make([]Value, len(parts))
+			for i, p := range parts {
+				el[i] = StrC(p)
+			}
+			id := e.newObj(c, &Obj{Val: ArrayV{el}})
+			return SliceV{[]SliceAlt{{TTrue, id, 0, BV(64, uint64(len(el))), len(el)}}}, true
+		}
 		if s.R == nil || sep != "/" {
-			unsup("strings.Split model: needs a rope and sep \"/\"")
+			unsup("strings.Split model: needs a rope and sep \"/\" (rope %v choice %v lenconst %v sep %q)", s.R != nil, s.Ch != nil, s.Len.IsConst(), sep)
 		}
 		el := make([]Value, len(s.R.Toks))
 		for i, t := range s.R.Toks {
@@ -105,7 +115,56 @@ func installModels(e *Engine) {
 		return BoolV{And(conj...)}, true
 	}
 	e.intercept["net/url.PathUnescape"] = func(e *Engine, fr *Frame, c *Ctx, a []Value, cc *ssa.CallCommon) (Value, bool) {
-		// spike: identity (precondition: no '%' in the key, guaranteed by the name alphabet)
+		s := a[0].(StrV)
+		if cs, ok := s.Concrete(); ok {
+			u, err := url.PathUnescape(cs)
+			if err != nil {
+				return TupleV{[]Value{StrC(""), mkErr(StrC("invalid URL escape"))}}, true
+			}
+			return TupleV{[]Value{StrC(u), nilIface()}}, true
+		}
+		if s.R != nil {
+			// piece-wise: a constant piece is decoded concretely, a piece that is the URL-escaped form of x decodes to x
+			// (lemma PathUnescape(escape(x, fragment)) == x, checked by selftest), any other piece must be free of '%'
+			nr := &Rope{}
+			var pct []*Term
+			for _, tok := range s.R.Toks {
+				var nt []StrV
+				for _, p := range tok {
+					switch {
+					case p.UEscOf != nil:
+						nt = append(nt, *p.UEscOf)
+					default:
+						if cs, ok := p.Concrete(); ok {
+							u, err := url.PathUnescape(cs)
+							if err != nil || strings.Contains(u, "/") != strings.Contains(cs, "/") {
+								unsup("PathUnescape model: constant piece %q", cs)
+							}
+							nt = append(nt, flatC(u))
+							continue
+						}
+						f := fl(p)
+						for i, b := range f.B {
+							pct = append(pct, And(Ult(BV(64, uint64(i)), f.Len), Eq(b, BV(8, '%'))))
+						}
+						nt = append(nt, p)
+					}
+				}
+				nr.Toks = append(nr.Toks, nt)
+			}
+			if len(pct) > 0 {
+				e.Obls = append(e.Obls, Obligation{Kind: "assert", ID: "engine: url.PathUnescape model needs '%'-free symbolic pieces", Cond: And(c.S.PC, Or(pct...))})
+			}
+			// unescaped pieces may contain '/', so the result is only a rope if every decoded piece is still '/'-free;
+			// keys and names never contain a raw '/' inside a token except through %2F, which escape() does not emit for '/'
+			return TupleV{[]Value{StrV{Len: ropeLen(nr), R: nr}, nilIface()}}, true
+		}
+		f := fl(s)
+		var pct []*Term
+		for i, b := range f.B {
+			pct = append(pct, And(Ult(BV(64, uint64(i)), f.Len), Eq(b, BV(8, '%'))))
+		}
+		e.Obls = append(e.Obls, Obligation{Kind: "assert", ID: "engine: url.PathUnescape model needs a '%'-free symbolic string", Cond: And(c.S.PC, Or(pct...))})
 		return TupleV{[]Value{a[0], nilIface()}}, true
 	}
 	e.intercept["path.Dir"] = func(e *Engine, fr *Frame, c *Ctx, a []Value, _ *ssa.CallCommon) (Value, bool) {
@@ -114,7 +173,7 @@ func installModels(e *Engine) {
 			if cs, ok := s.Concrete(); ok {
 				return StrC(path.Dir(cs)), true
 			}
-			unsup("path.Dir model needs a rope with >= 2 tokens (rope: %v)", s.R != nil)
+			unsup("path.Dir model needs a rope with >= 2 tokens (rope: %v, toks %d, choice %v, lenconst %v)", s.R != nil, ntoks(s), s.Ch != nil, s.Len.IsConst())
 		}
 		r := &Rope{Toks: s.R.Toks[:len(s.R.Toks)-1]}
 		return StrV{Len: ropeLen(r), R: r}, true
@@ -215,34 +274,72 @@ func installModels(e *Engine) {
 		}
 		return nil, true
 	}
-	// sort.Sort: only trivial sizes in the spike
+	// sort.Sort(x): bounded bubble sort driving the real Len/Less/Swap methods of x (exact whenever Less is a strict
+	// weak order on the elements, which the harnesses check separately for the comparators of the code under test)
 	e.intercept["sort.Sort"] = func(e *Engine, fr *Frame, c *Ctx, a []Value, _ *ssa.CallCommon) (Value, bool) {
 		iv := a[0].(IfaceV)
-		for _, al := range iv.Alts {
-			if sv, ok := al.V.(SliceV); ok {
-				for _, sa := range sv.Alts {
-					if !(sa.Len.hasIv && sa.Len.hi <= 1) {
-						unsup("sort.Sort model: more than one element")
-					}
+		if len(iv.Alts) != 1 || iv.Alts[0].Typ == nil {
+			unsup("sort.Sort model: receiver with several dynamic types")
+		}
+		t := iv.Alts[0].Typ
+		recv := iv.Alts[0].V
+		meth := func(name string) *ssa.Function {
+			fn := e.prog.LookupMethod(t, nil, name)
+			if fn == nil {
+				unsup("sort.Sort model: no method %s on %v", name, t)
+			}
+			return fn
+		}
+		lenV, nc := e.call(fr, c, meth("Len"), []Value{recv}, nil)
+		if nc == nil {
+			return nil, false
+		}
+		c.S = nc.S
+		ln := lenV.(IntV).T
+		n := 0
+		switch {
+		case ln.IsConst():
+			n = int(ln.val)
+		case ln.hasIv && ln.hi <= 16:
+			n = int(ln.hi)
+		default:
+			unsup("sort.Sort model: unbounded length")
+		}
+		less, swap := meth("Less"), meth("Swap")
+		for i := 0; i < n; i++ {
+			for j := 0; j+1 < n-i; j++ {
+				inRange := Ult(BV(64, uint64(j+1)), ln)
+				if inRange.IsFalse() {
+					continue
 				}
+				cx := c.fork(inRange)
+				lv, lc := e.call(fr, cx, less, []Value{recv, IntV{BV(64, uint64(j + 1))}, IntV{BV(64, uint64(j))}}, nil)
+				if lc == nil {
+					continue
+				}
+				doSwap := And(inRange, lv.(BoolV).T)
+				if doSwap.IsFalse() {
+					continue
+				}
+				sx := &Ctx{S: lc.S.clone(), Regs: c.Regs}
+				sx.S.PC = And(c.S.PC, doSwap)
+				_, sc := e.call(fr, sx, swap, []Value{recv, IntV{BV(64, uint64(j))}, IntV{BV(64, uint64(j + 1))}}, nil)
+				if sc == nil {
+					continue
+				}
+				keep := &Ctx{S: c.S.clone(), Regs: map[ssa.Value]Value{}}
+				keep.S.PC = And(c.S.PC, Not(doSwap))
+				mm := e.mergeCtx(doSwap, &Ctx{S: sc.S, Regs: map[ssa.Value]Value{}}, keep, c.S.PC)
+				c.S = mm.S
 			}
 		}
 		return nil, true
 	}
-	// sortref.mustMapIterator / reflect: only empty maps in the spike
-	e.intercept["github.com/go-openapi/analysis/internal/flatten/sortref.DepthFirst"] = func(e *Engine, fr *Frame, c *Ctx, a []Value, _ *ssa.CallCommon) (Value, bool) {
-		iv := a[0].(IfaceV)
-		for _, al := range iv.Alts {
-			if mv, ok := al.V.(MapV); ok {
-				if !e.mapLen(c, mv).IsConst() || e.mapLen(c, mv).val != 0 {
-					unsup("DepthFirst spike model: non-empty map")
-				}
-			}
-		}
-		return nilSlice(), true
-	}
 	e.intercept["path.Base"] = func(e *Engine, fr *Frame, c *Ctx, a []Value, _ *ssa.CallCommon) (Value, bool) {
 		s := a[0].(StrV)
+		if cs, ok := s.Concrete(); ok {
+			return StrC(path.Base(cs)), true
+		}
 		if s.R == nil {
 			unsup("path.Base model needs a rope")
 		}
@@ -298,6 +395,7 @@ func installModels(e *Engine) {
 	}
 	redirect("github.com/go-openapi/swag.ToGoName", "vrfModelIdent")
 	redirect("github.com/go-openapi/spec.ExpandSchema", "vrfModelExpandSchema")
+	redirect("github.com/go-openapi/spec.ResolveRefWithBase", "vrfModelResolveRef")
 	concreteOnly := func(name string, f func(string) string) {
 		e.intercept[name] = func(e *Engine, fr *Frame, c *Ctx, a []Value, _ *ssa.CallCommon) (Value, bool) {
 			s, ok := a[0].(StrV).Concrete()
@@ -399,23 +497,38 @@ func installModels(e *Engine) {
 		st := cc.Signature().Recv().Type().(*types.Pointer).Elem().Underlying().(*types.Struct)
 		for i := 0; i < st.NumFields(); i++ {
 			if st.Field(i).Name() == "Fragment" {
-				f := u.F[i].(StrV)
-				if f.R != nil {
-					r := &Rope{}
-					for ti, tok := range f.R.Toks {
-						var nt []StrV
-						if ti == 0 {
-							nt = append(nt, flatC("#"))
-						}
-						for _, p := range tok {
-							nt = append(nt, urlEscFrag(p))
-						}
-						r.Toks = append(r.Toks, nt)
+				var render func(f StrV) StrV
+				render = func(f StrV) StrV {
+					if f.B == nil && f.Ch != nil {
+						return mergeV(f.Ch.C, render(f.Ch.A), render(f.Ch.B)).(StrV)
 					}
-					res := StrV{Len: ropeLen(r), R: r}
-					return mergeV(Eq(f.Len, BV(64, 0)), StrC(""), res), true
+					if f.R != nil {
+						r := &Rope{}
+						for ti, tok := range f.R.Toks {
+							var nt []StrV
+							if ti == 0 {
+								nt = append(nt, flatC("#"))
+							}
+							for _, p := range tok {
+								orig := p
+								ep := urlEscFrag(p)
+								ep.UEscOf = &orig
+								nt = append(nt, ep)
+							}
+							r.Toks = append(r.Toks, nt)
+						}
+						res := StrV{Len: ropeLen(r), R: r}
+						if f.Len.IsConst() {
+							if f.Len.val == 0 {
+								return StrC("")
+							}
+							return res
+						}
+						return mergeV(Eq(f.Len, BV(64, 0)), StrC(""), res).(StrV)
+					}
+					return mergeV(Eq(f.Len, BV(64, 0)), StrC(""), strConcat(StrC("#"), urlEscFrag(fl(f)))).(StrV)
 				}
-				return mergeV(Eq(f.Len, BV(64, 0)), StrC(""), strConcat(StrC("#"), urlEscFrag(fl(f)))), true
+				return render(u.F[i].(StrV)), true
 			}
 		}
 		return nil, false
@@ -601,4 +714,11 @@ func mulConst10(x *Term) *Term {
 		return BV(64, x.val*10)
 	}
 	return Add(BinBV(OShl, x, BV(64, 3)), BinBV(OShl, x, BV(64, 1)))
+}
+
+func ntoks(s StrV) int {
+	if s.R == nil {
+		return -1
+	}
+	return len(s.R.Toks)
 }
